@@ -19,23 +19,6 @@ CONSTANTS MaxLen, MaxPict, Preset
 VARIABLES oss, hist, nextPict, nextSrc
 vars == <<oss, hist, nextPict, nextSrc>>
 
-NewSrcOf == [p \in 1..20 |-> 200 + p]
-Op(o) == [op |-> o, p |-> 0, a |-> 0, b |-> 0, new |-> 0, s |-> 0, n |-> 0, kind |-> "", type |-> "", table |-> 0]
-\* apply one recorded call to a state
-Apply(S, c) ==
-  CASE c.op = "InsertBase" -> InsertBase(S, c.new)
-    [] c.op = "InsertOperation" -> InsertOperation(S, c.new, c.a, c.b)
-    [] c.op = "Erase" -> Erase(S, c.p)
-    [] c.op = "ConnectNew" -> ConnectNew(S, c.p, c.s, c.n)
-    [] c.op = "Edit" -> Edit(S, c.p, c.kind)
-    [] c.op = "Save" -> Save(S, c.p)
-    [] c.op = "Lock" -> Lock(S, c.p)
-    [] c.op = "InitFor" -> InitFor(S, c.p, c.type, c.table)
-    [] c.op = "Execute" -> Execute(S, c.p, NewSrcOf, FALSE).S
-    [] c.op = "ExecuteAll" -> ExecAll(S, SortedSeq(DOMAIN S.oper), 1, NewSrcOf)
-RECURSIVE ApplyAll(_, _, _)
-ApplyAll(S, cs, i) == IF i > Len(cs) THEN S ELSE ApplyAll(Apply(S, cs[i]), cs, i + 1)
-
 IB(new) == [Op("InsertBase") EXCEPT !.new = new]
 IO(new, a, b) == [Op("InsertOperation") EXCEPT !.new = new, !.a = a, !.b = b]
 CN(p, s, n) == [Op("ConnectNew") EXCEPT !.p = p, !.s = s, !.n = n]
@@ -80,21 +63,12 @@ Next ==
              /\ Step([Op("Lock") EXCEPT !.p = p]) /\ UNCHANGED <<nextPict, nextSrc>>
      \/ /\ \E p \in DOMAIN oss.oper : Step(EX(p)) /\ UNCHANGED <<nextPict, nextSrc>>
      \/ /\ DOMAIN oss.oper # {} /\ Step(Op("ExecuteAll")) /\ UNCHANGED <<nextPict, nextSrc>>
+     \* save the document, close everything, load it with the items rotated by n, re-open the sources
+     \/ /\ Picts(oss) # {} /\ AllSaved(oss) /\ (IF hist = <<>> THEN TRUE ELSE hist[Len(hist)].op # "Reload")
+        /\ \E n \in {0, 1, 2} : Step([Op("Reload") EXCEPT !.n = n]) /\ UNCHANGED <<nextPict, nextSrc>>
 Spec == Init /\ [][Next]_vars
 
 \* ---- what is emitted: the calls (prefix and history) and the predicted state after the last call and after a final SaveAll
-SaveAll(S) == LET ps == SortedSeq(Picts(S))
-                  RECURSIVE F(_, _)
-                  F(T, i) == IF i > Len(ps) THEN T ELSE F(Save(T, ps[i]), i + 1)
-              IN F(S, 1)
-View(S) ==
-  LET ps == SortedSeq(Picts(S)) IN
-  [i \in DOMAIN ps |-> LET p == ps[i] IN
-     [pid |-> p, parents |-> S.par[p], isOp |-> IsOp(S, p), hasData |-> HasData(S, p),
-      status |-> StatusOf(S, p),
-      broken |-> IF IsOp(S, p) THEN S.oper[p].broken ELSE FALSE, outdated |-> IF IsOp(S, p) THEN S.oper[p].outdated ELSE FALSE,
-      type |-> IF IsOp(S, p) THEN S.oper[p].type ELSE "",
-      n |-> IF HasData(S, p) THEN DataOf(S, p).n ELSE 0, terms |-> IF HasData(S, p) THEN DataOf(S, p).u + DataOf(S, p).e ELSE 0]]
 Emit == PrintT(<<"CASE", ToJson([prefix |-> Prefix, hist |-> hist, now |-> View(oss), saved |-> View(SaveAll(oss))])>>)
 
 StructureInv == Structure(oss)
